@@ -106,7 +106,7 @@ PRED = {
     "C09": {1: "window-exceeded", 2: "frame-larger-than-any-announced-max", 3: "frame-larger-than-acknowledged-max",
             4: "credit-not-returned", 5: "relay-does-not-terminate"},
     "C10": {1: "stream-content-differs", 2: "connection-frame-not-relayed", 3: "conforming-frame-refused",
-            4: "frame-stranded"},
+            4: "frame-stranded", 6: "frame-larger-than-receiver-accepts"},
 }
 
 
